@@ -228,6 +228,9 @@ func decodeRecord(reader *bytes.Reader, baseOffset int64, baseTimestamp int64, t
 	if length < 0 {
 		return Record{}, fmt.Errorf("invalid record length")
 	}
+	if int64(length) > int64(reader.Len()) {
+		return Record{}, io.ErrUnexpectedEOF
+	}
 
 	recordData := make([]byte, length)
 	if _, err := io.ReadFull(reader, recordData); err != nil {
